@@ -407,6 +407,27 @@ def seqs(f, m):
     return bad
 
 
+def seqs_default(f):
+    """the same with the `all` argument LEFT OUT: every API documents the same default (False: nodes with a location of their own or ...), so all must agree with walk() called without it"""
+    kids = list(f.walk(self_=False, recurse=False))
+    bad = []
+    seq = []; c = f.first_child()
+    while c is not None and len(seq) < 500: seq.append(c); c = c.next()
+    if [id(x) for x in seq] != [id(x) for x in kids]: bad.append('first_child/next')
+    seq2 = []; c = f.last_child()
+    while c is not None and len(seq2) < 500: seq2.append(c); c = c.prev()
+    if [id(x) for x in seq2] != [id(x) for x in reversed(kids)]: bad.append('last_child/prev')
+    seq3 = []; c = f.next_child(None)
+    while c is not None and len(seq3) < 500: seq3.append(c); c = f.next_child(c)
+    if [id(x) for x in seq3] != [id(x) for x in kids]: bad.append('next_child')
+    seq4 = []; c = f.prev_child(None)
+    while c is not None and len(seq4) < 500: seq4.append(c); c = f.prev_child(c)
+    if [id(x) for x in seq4] != [id(x) for x in reversed(kids)]: bad.append('prev_child')
+    if [id(x) for x in f.walk(self_=False, recurse=False, back=True)] != [id(x) for x in reversed(kids)]: bad.append('back')
+    if [id(x) for x in kids] != [id(x) for x in f.walk(False, self_=False, recurse=False)]: bad.append('walk-default-vs-False')
+    return bad
+
+
 def stage_modes(ctx: Ctx, progs):
     """the sibling / child navigation and stepping agree with walk() under EVERY `all` setting (True, False, 'loc', a class, a set of classes), for every
     node of programs that hold every combination of optional child groups (decorators x type parameters x argument kinds x bases ...)"""
@@ -414,6 +435,22 @@ def stage_modes(ctx: Ctx, progs):
     for pi, src in enumerate(progs):
         root = fst.FST(src, 'exec')
         w = list(root.walk(True))
+        ctx.tick(('modes', src, 'default'), 'modes:default-argument')
+        for f in w:
+            bad = seqs_default(f)
+            if bad:
+                ctx.violation(f'modes|{bad[0]}|all=default|{type(f.a).__name__}', 'with the `all` argument left out the sibling / child navigation disagrees with walk(recurse=False) called the same way',
+                              {'src': src, 'parent': type(f.a).__name__, 'parent_src': f.src[:120] if f.loc else None, 'disagree': bad})
+                break
+        wd = list(root.walk())
+        for name, seq0, step in (('step_fwd', wd, lambda c: c.step_fwd()), ('step_back', list(root.walk(back=True)), lambda c: c.step_back())):
+            seq = [seq0[0]]
+            c = step(seq0[0])
+            while c is not None and len(seq) < len(w) + 5:
+                seq.append(c)
+                c = step(c)
+            if [id(x) for x in seq] != [id(x) for x in seq0]:
+                ctx.violation(f'modes|{name}|all=default', f'repeated {name}() without the `all` argument does not reproduce walk() without it', {'src': src})
         for m in (True, False, 'loc', ast.Name, {ast.arguments, ast.arg, ast.keyword}):
             mname = m.__name__ if isinstance(m, type) else 'set' if isinstance(m, set) else repr(m)
             ctx.tick(('modes', src, mname), 'modes:' + mname)
